@@ -865,6 +865,9 @@ def _module_stable_names(tree):
             return True
         return isinstance(v, ast.Tuple) and all(immut(e) for e in v.elts)
     globs = {g for n in ast.walk(tree) if isinstance(n, (ast.Global, ast.Nonlocal)) for g in n.names}
+    globs |= {n.target.id for n in tree.body if isinstance(n, (ast.AugAssign, ast.AnnAssign)) and isinstance(n.target, ast.Name)}
+    globs |= {t.id for n in tree.body if isinstance(n, (ast.For, ast.With, ast.If, ast.Try, ast.While)) for t in ast.walk(n)
+              if isinstance(t, ast.Name) and isinstance(t.ctx, (ast.Store, ast.Del))}
     for n in tree.body:
         if isinstance(n, ast.Assign) and len(n.targets) == 1 and isinstance(n.targets[0], ast.Name) and immut(n.value):
             nm = n.targets[0].id
@@ -1026,6 +1029,10 @@ def _propagate_copies(fn):
     return count[0]
 
 
+import re as _re
+_HOISTED_CONTAINER = _re.compile(r"__r\d+c\d+$")      # names made by _hoist_fresh_containers_in_tables: they must stay names
+
+
 def _inline_adjacent_single_use(stmts, uses):
     """`t = <expr>` immediately followed by the only statement that reads t (once, and not inside a loop/branch body of it):
     the expression replaces the read.  Evaluation order is unchanged because nothing runs in between."""
@@ -1036,7 +1043,8 @@ def _inline_adjacent_single_use(stmts, uses):
         s = stmts[i]
         nxt = stmts[i + 1] if i + 1 < len(stmts) else None
         if (isinstance(s, ast.Assign) and len(s.targets) == 1 and isinstance(s.targets[0], ast.Name) and nxt is not None
-                and uses.get(s.targets[0].id) == (1, 1) and isinstance(nxt, (ast.Assign, ast.Expr, ast.Return, ast.AugAssign, ast.AnnAssign))):
+                and uses.get(s.targets[0].id) == (1, 1) and isinstance(nxt, (ast.Assign, ast.Expr, ast.Return, ast.AugAssign, ast.AnnAssign))
+                and not _HOISTED_CONTAINER.search(s.targets[0].id)):
             name = s.targets[0].id
             loads = [n for n in ast.walk(nxt) if isinstance(n, ast.Name) and n.id == name and isinstance(n.ctx, ast.Load)]
             inside_lambda = any(isinstance(n, (ast.Lambda, ast.ListComp, ast.SetComp, ast.DictComp, ast.GeneratorExp)) for n in ast.walk(nxt))
@@ -1081,6 +1089,38 @@ def _inline_adjacent_single_use(stmts, uses):
         out.append(s)
         i += 1
     return out, changed
+
+
+_MODULE_ROW_TABLES = {}
+
+
+def _module_row_tables(tree):
+    """Module-level `NAME = ((a, b, ...), ...)` bound once, never mutated, never named in a `global` statement, whose rows are tuples of
+    literals, `np.<name>` dotted names, module-level def/class names and nested tuples of those: name -> list of row nodes."""
+    stores = {}
+    for n in ast.walk(tree):
+        if isinstance(n, ast.Name) and isinstance(n.ctx, (ast.Store, ast.Del)):
+            stores[n.id] = stores.get(n.id, 0) + 1
+    globs = {g for n in ast.walk(tree) if isinstance(n, (ast.Global, ast.Nonlocal)) for g in n.names}
+    defs = {n.name for n in tree.body if isinstance(n, (ast.FunctionDef, ast.ClassDef))}
+
+    def cell(e):
+        if isinstance(e, ast.Constant):
+            return True
+        if isinstance(e, ast.Tuple):
+            return all(cell(x) for x in e.elts)
+        d = _dotted_name(e)
+        if d is not None:
+            return d.split(".")[0] in ("np", "numpy") or (d in defs and stores.get(d, 0) == 0)
+        return False
+    out = {}
+    for n in tree.body:
+        if isinstance(n, ast.Assign) and len(n.targets) == 1 and isinstance(n.targets[0], ast.Name) and isinstance(n.value, ast.Tuple) and n.value.elts \
+                and all(isinstance(r, ast.Tuple) and r.elts and cell(r) for r in n.value.elts):
+            nm = n.targets[0].id
+            if stores.get(nm) == 1 and nm not in globs:
+                out[nm] = list(n.value.elts)
+    return out
 
 
 def _module_const_tuples(tree):
@@ -1212,9 +1252,12 @@ def _static_expand(fn, consts):
             if isinstance(c.func, ast.Name) and c.func.id in ("any", "all") and len(c.args) == 1 and not c.keywords \
                     and isinstance(c.args[0], (ast.GeneratorExp, ast.ListComp)) and len(c.args[0].generators) == 1:
                 g = c.args[0].generators[0]
-                if not g.ifs and not g.is_async and isinstance(g.iter, ast.Name) and g.iter.id in consts and isinstance(g.target, ast.Name) \
-                        and len(consts[g.iter.id]) >= 2 and isinstance(c.args[0], ast.GeneratorExp):
-                    vals = [_ConstSubst(g.target.id, k).visit(copy.deepcopy(c.args[0].elt)) for k in consts[g.iter.id]]
+                rows_ = consts[g.iter.id] if isinstance(g.iter, ast.Name) and g.iter.id in consts else \
+                    list(g.iter.elts) if isinstance(g.iter, (ast.Tuple, ast.List)) and 2 <= len(g.iter.elts) <= 8 and all(
+                        isinstance(e_, ast.Constant) for e_ in g.iter.elts) else None
+                if not g.ifs and not g.is_async and rows_ is not None and isinstance(g.target, ast.Name) \
+                        and len(rows_) >= 2 and isinstance(c.args[0], ast.GeneratorExp):
+                    vals = [_ConstSubst(g.target.id, k).visit(copy.deepcopy(c.args[0].elt)) for k in rows_]
                     changed[0] += 1
                     return self.visit(ast.copy_location(ast.BoolOp(op=ast.Or() if c.func.id == "any" else ast.And(), values=vals), c))
             self.generic_visit(c)
@@ -1241,6 +1284,10 @@ def _static_expand(fn, consts):
     # local table: a single-assignment tuple display of rows built from constants and names the function never rebinds
     from .model import single_assignments
     stored_names = {n.id for n in ast.walk(fn) if isinstance(n, ast.Name) and isinstance(n.ctx, (ast.Store, ast.Del))}
+    store_counts = {}
+    for n_ in ast.walk(fn):
+        if isinstance(n_, ast.Name) and isinstance(n_.ctx, (ast.Store, ast.Del)):
+            store_counts[n_.id] = store_counts.get(n_.id, 0) + 1
     # (a parameter the body never rebinds denotes one object for the whole call; an attribute of it is stable when the function
     # stores to no attribute of that name and calls nothing on the object in between is not tracked: rows are read once, at the loop)
     stored_attrs_ = {n.attr for n in ast.walk(fn) if isinstance(n, ast.Attribute) and isinstance(n.ctx, (ast.Store, ast.Del))}
@@ -1253,7 +1300,8 @@ def _static_expand(fn, consts):
         if isinstance(x, ast.Constant):
             return True
         if isinstance(x, ast.Name):
-            return x.id not in stored_names
+            # (a container hoisted out of this very table is bound once, just before it: the name denotes that one object)
+            return x.id not in stored_names or (_HOISTED_CONTAINER.search(x.id) is not None and store_counts.get(x.id) == 1)
         if isinstance(x, ast.Attribute):
             return stable_expr(x.value) and x.attr not in stored_attrs_
         if isinstance(x, ast.Tuple):
@@ -1352,6 +1400,8 @@ def _static_expand(fn, consts):
                         continue
             if isinstance(s_, ast.For) and not s_.orelse:
                 rows_ = local_tables.get(s_.iter.id) if isinstance(s_.iter, ast.Name) else inline_rows(s_)
+                if rows_ is None and isinstance(s_.iter, ast.Name) and s_.iter.id in _MODULE_ROW_TABLES and s_.iter.id not in stored_names:
+                    rows_ = _MODULE_ROW_TABLES[s_.iter.id]
             if rows_ is not None and any(isinstance(x, (ast.Break, ast.Continue)) for x in ast.walk(s_)):
                 nb_ = strip_top_continue(s_.body)
                 if nb_ is None:
@@ -1380,6 +1430,12 @@ def _static_expand(fn, consts):
                             if isinstance(b_, ast.Try) and not any(mentions(h_, x) for h_ in b_.handlers) and not any(mentions(z, x) for z in b_.orelse + b_.finalbody) \
                                     and not any(mentions(z, x) for z in block[block.index(b_) + 1:]):
                                 return dom(b_.body, x)
+                            # used inside one arm of an `if` only, and defined there before it is used
+                            if isinstance(b_, ast.If) and not mentions(b_.test, x) and not any(mentions(z, x) for z in block[block.index(b_) + 1:]):
+                                in_body = any(mentions(z, x) for z in b_.body)
+                                in_else = any(mentions(z, x) for z in b_.orelse)
+                                if in_body != in_else:
+                                    return dom(b_.body if in_body else b_.orelse, x)
                             return False
                         return False
                     inside = sum(1 for b_ in s_.body for y in ast.walk(b_) if isinstance(y, ast.Name))
@@ -1405,7 +1461,8 @@ def _static_expand(fn, consts):
             out.append(s_)
         return out
     local_tables_ref[0] = local_tables
-    if local_tables or any(isinstance(x, ast.For) and isinstance(x.iter, (ast.Tuple, ast.List)) for x in ast.walk(fn)):
+    if local_tables or any(isinstance(x, ast.For) and (isinstance(x.iter, (ast.Tuple, ast.List)) or
+                                                       (isinstance(x.iter, ast.Name) and x.iter.id in _MODULE_ROW_TABLES)) for x in ast.walk(fn)):
         fn.body = unroll_table_loops(fn.body)
     fn.body = unroll_stmts(fn.body)
     e = E()
@@ -1784,6 +1841,27 @@ def _merge_dict_item_stores(stmts):
                     break
                 s.value.keys.append(nx.targets[0].slice)
                 s.value.values.append(nx.value)
+                del stmts[i + 1]
+        # `xs = [a, b]` directly followed by `xs.append(c)` / `xs.extend([c, d])` / `xs += [c]` (values not reading xs): one display
+        if isinstance(s, ast.Assign) and len(s.targets) == 1 and isinstance(s.targets[0], ast.Name) and isinstance(s.value, ast.List) \
+                and not any(isinstance(e, ast.Starred) for e in s.value.elts):
+            name = s.targets[0].id
+            while i + 1 < len(stmts):
+                nx = stmts[i + 1]
+                more = None
+                if isinstance(nx, ast.Expr) and isinstance(nx.value, ast.Call) and isinstance(nx.value.func, ast.Attribute) \
+                        and isinstance(nx.value.func.value, ast.Name) and nx.value.func.value.id == name and not nx.value.keywords and len(nx.value.args) == 1:
+                    if nx.value.func.attr == "append":
+                        more = [nx.value.args[0]]
+                    elif nx.value.func.attr == "extend" and isinstance(nx.value.args[0], (ast.List, ast.Tuple)) \
+                            and not any(isinstance(e, ast.Starred) for e in nx.value.args[0].elts):
+                        more = list(nx.value.args[0].elts)
+                elif isinstance(nx, ast.AugAssign) and isinstance(nx.op, ast.Add) and isinstance(nx.target, ast.Name) and nx.target.id == name \
+                        and isinstance(nx.value, ast.List) and not any(isinstance(e, ast.Starred) for e in nx.value.elts):
+                    more = list(nx.value.elts)
+                if more is None or any(isinstance(n, ast.Name) and n.id == name for m_ in more for n in ast.walk(m_)):
+                    break
+                s.value.elts.extend(more)
                 del stmts[i + 1]
         i += 1
 
@@ -2919,6 +2997,56 @@ def _fold_flag_chains(fn):
     return changed[0]
 
 
+def _hoist_fresh_containers_in_tables(fn):
+    """`plan = (("cms", CountMin, cms_args, []), ("hh", HeavyHitters, hh_args, []))` -- a local table (bound once) whose rows carry
+    fresh empty containers: each `[]` / `{}` / `list()` / `dict()` gets a local of its own, bound just before the table
+    (`plan__r0c3 = []`), and the row holds that name.  Creating an empty container has no effect and reads nothing, so evaluating it
+    a moment earlier changes nothing; afterwards the rows consist of names and constants only and the table loops can be unrolled
+    without duplicating a mutable object."""
+    stores = {}
+    for x in ast.walk(fn):
+        if isinstance(x, ast.Name) and isinstance(x.ctx, (ast.Store, ast.Del)):
+            stores[x.id] = stores.get(x.id, 0) + 1
+    n = [0]
+
+    def fresh(e):
+        if isinstance(e, (ast.List, ast.Set)) and not e.elts:
+            return True
+        if isinstance(e, ast.Dict) and not e.keys:
+            return True
+        return isinstance(e, ast.Call) and isinstance(e.func, ast.Name) and e.func.id in ("list", "dict", "set", "Counter") and not e.args and not e.keywords
+
+    def block(stmts):
+        out = []
+        for st in stmts:
+            if isinstance(st, (ast.FunctionDef, ast.AsyncFunctionDef, ast.ClassDef)):
+                out.append(st)
+                continue
+            for fld in ("body", "orelse", "finalbody"):
+                blk = getattr(st, fld, None)
+                if isinstance(blk, list):
+                    setattr(st, fld, block(blk))
+            if isinstance(st, ast.Assign) and len(st.targets) == 1 and isinstance(st.targets[0], ast.Name) and stores.get(st.targets[0].id) == 1 \
+                    and isinstance(st.value, (ast.Tuple, ast.List)) and st.value.elts and all(isinstance(r, ast.Tuple) for r in st.value.elts) \
+                    and any(fresh(e) for r in st.value.elts for e in r.elts):
+                tname = st.targets[0].id
+                for i, r in enumerate(st.value.elts):
+                    for j, e in enumerate(r.elts):
+                        if fresh(e):
+                            nm = "%s__r%dc%d" % (tname, i, j)
+                            out.append(ast.copy_location(ast.Assign(targets=[ast.Name(id=nm, ctx=ast.Store())], value=e), st))
+                            r.elts[j] = ast.copy_location(ast.Name(id=nm, ctx=ast.Load()), e)
+                            n[0] += 1
+                if isinstance(st.value, ast.List):
+                    pass
+            out.append(st)
+        return out
+    fn.body = block(fn.body)
+    if n[0]:
+        ast.fix_missing_locations(fn)
+    return n[0]
+
+
 def _fuse_loop_unpack(fn):
     """`for item in X: a, b = item; BODY` with `item` read nowhere else and bound by nothing else  ->  `for a, b in X: BODY`."""
     loads, stores = {}, {}
@@ -2936,6 +3064,71 @@ def _fuse_loop_unpack(fn):
             lp.body = lp.body[1:] or [ast.copy_location(ast.Pass(), lp)]
             n += 1
     return n
+
+
+def _fork_minmax_feeding_loop_bounds(fn):
+    """Kernel: `x = min(a, b)` / `x = max(a, b)` with pure scalar operands, where `x` flows (through plain assignments) into the bound
+    of a `range` loop or the test of a `while`: written as the comparison it is -- `if b < a: x = b else: x = a` (what min returns),
+    `if b > a: x = b else: x = a` (max) -- so that the walker follows the two cases as two paths (a trip count that is zero in one
+    case and positive in the other cannot be related to the loop body through a single min term)."""
+    deps = {}
+    for n in ast.walk(fn):
+        if isinstance(n, (ast.Assign, ast.AugAssign)):
+            tg = n.targets if isinstance(n, ast.Assign) else [n.target]
+            for t in tg:
+                for e in (t.elts if isinstance(t, (ast.Tuple, ast.List)) else [t]):
+                    if isinstance(e, ast.Name):
+                        deps.setdefault(e.id, set()).update(x.id for x in ast.walk(n.value) if isinstance(x, ast.Name))
+    seeds = set()
+    for n in ast.walk(fn):
+        if isinstance(n, ast.For) and isinstance(n.iter, ast.Call) and (_dotted_name(n.iter.func) or "").split(".")[-1] in ("range", "prange"):
+            seeds |= {x.id for a in n.iter.args for x in ast.walk(a) if isinstance(x, ast.Name)}
+        elif isinstance(n, ast.While):
+            seeds |= {x.id for x in ast.walk(n.test) if isinstance(x, ast.Name)}
+    live, todo = set(), list(seeds)
+    while todo:
+        x = todo.pop()
+        if x in live:
+            continue
+        live.add(x)
+        todo.extend(deps.get(x, ()))
+
+    def pure(e):
+        if isinstance(e, (ast.Name, ast.Constant)):
+            return True
+        if isinstance(e, ast.BinOp):
+            return pure(e.left) and pure(e.right)
+        if isinstance(e, ast.Call) and len(e.args) == 1 and not e.keywords and (_dotted_name(e.func) or "").split(".")[-1] in _INT_CASTS:
+            return pure(e.args[0])
+        return False
+    changed = [0]
+
+    def block(stmts):
+        out = []
+        for st in stmts:
+            if isinstance(st, (ast.FunctionDef, ast.AsyncFunctionDef, ast.ClassDef)):
+                out.append(st)
+                continue
+            for fld in ("body", "orelse", "finalbody"):
+                blk = getattr(st, fld, None)
+                if isinstance(blk, list):
+                    setattr(st, fld, block(blk))
+            if isinstance(st, ast.Assign) and len(st.targets) == 1 and isinstance(st.targets[0], ast.Name) and st.targets[0].id in live \
+                    and isinstance(st.value, ast.Call) and isinstance(st.value.func, ast.Name) and st.value.func.id in ("min", "max") \
+                    and len(st.value.args) == 2 and not st.value.keywords and all(pure(a) for a in st.value.args):
+                a, b = st.value.args
+                op = ast.Lt() if st.value.func.id == "min" else ast.Gt()
+                mk = lambda v: ast.copy_location(ast.Assign(targets=[copy.deepcopy(st.targets[0])], value=copy.deepcopy(v)), st)
+                out.append(ast.copy_location(ast.If(test=ast.copy_location(ast.Compare(left=copy.deepcopy(b), ops=[op], comparators=[copy.deepcopy(a)]), st),
+                                                    body=[mk(b)], orelse=[mk(a)]), st))
+                changed[0] += 1
+                continue
+            out.append(st)
+        return out
+    fn.body = block(fn.body)
+    if changed[0]:
+        ast.fix_missing_locations(fn)
+    return changed[0]
 
 
 def _sink_store_into_arms(fn):
@@ -3114,7 +3307,17 @@ def _trip_counter_loops(fn):
                 if isinstance(blk, list):
                     # statements of a loop body are followed by the loop itself (next trip) as well as by what follows the loop
                     setattr(st, fld, block(blk, ([st] if isinstance(st, (ast.For, ast.While)) else []) + rest))
-            if isinstance(st, ast.While) and not st.orelse and not any(isinstance(x, (ast.Break, ast.Continue)) for x in ast.walk(st)):
+            if isinstance(st, ast.While) and not st.orelse and isinstance(st.test, ast.BoolOp) and isinstance(st.test.op, ast.And) \
+                    and positive_test(st.test.values[0]) is not None and not any(isinstance(x, ast.Continue) for x in ast.walk(st)):
+                # `while t > 0 and REST:` -> `while t > 0: if not REST: break` (REST is evaluated exactly when it was)
+                rest_t = st.test.values[1] if len(st.test.values) == 2 else ast.copy_location(ast.BoolOp(op=ast.And(), values=st.test.values[1:]), st.test)
+                guard = ast.copy_location(ast.If(test=ast.copy_location(ast.UnaryOp(op=ast.Not(), operand=rest_t), rest_t),
+                                                 body=[ast.copy_location(ast.Break(), st)], orelse=[]), st)
+                st.test = st.test.values[0]
+                st.body = [guard] + st.body
+                changed[0] += 1
+            # (a `break` only ends the loop early, as it does in the range spelling; a `continue` could skip the decrement)
+            if isinstance(st, ast.While) and not st.orelse and not any(isinstance(x, ast.Continue) for x in ast.walk(st)):
                 t = positive_test(st.test)
                 if t is not None:
                     decs = [b for b in st.body if step_of(b, t) == -1]
@@ -3430,6 +3633,169 @@ def _priming_read_loops(tree):
     return n[0]
 
 
+def _inline_generators(tree):
+    """`for X in self._gen(args): BODY` where `_gen` is a private generator method of the same class (or a private module-level
+    generator function called by name) with exactly one `yield E` statement, no `yield from`, no `return <value>`, and nothing after
+    the yield inside the loop body that contains it: the generator's own loop nest is written out with `X = E; BODY` in place of the
+    yield.  BODY must not `break` (it would leave only the generator's innermost loop); `continue` resumes the generator exactly as
+    reaching the end of BODY does.  The generator's locals get fresh names."""
+    count = [0]
+    mod_funcs = {n.name: n for n in tree.body if isinstance(n, ast.FunctionDef)}
+
+    def yields(fn):
+        return [y for y in ast.walk(fn) if isinstance(y, (ast.Yield, ast.YieldFrom))]
+
+    def usable(gen):
+        ys = yields(gen)
+        if len(ys) != 1 or not isinstance(ys[0], ast.Yield) or ys[0].value is None or not _is_private(gen.name):
+            return None
+        if any(isinstance(r, ast.Return) and r.value is not None for r in ast.walk(gen)) or gen.decorator_list:
+            return None
+        # locate the yield statement and check that nothing follows it inside its innermost loop
+        path = []
+
+        def find(stmts, trail):
+            for i, st in enumerate(stmts):
+                if isinstance(st, ast.Expr) and st.value is ys[0]:
+                    path.extend(trail + [(stmts, i)])
+                    return True
+                for fld in ("body", "orelse"):
+                    blk = getattr(st, fld, None)
+                    if isinstance(blk, list) and not isinstance(st, (ast.FunctionDef, ast.ClassDef)) and find(blk, trail + [(stmts, i)]):
+                        return True
+            return False
+        body = [b for b in gen.body if not (isinstance(b, ast.Expr) and isinstance(b.value, ast.Constant))]
+        if not find(body, []):
+            return None
+        # walk outwards from the yield to the innermost loop: each step must be the last statement of its block
+        for blk, i in reversed(path):
+            if i != len(blk) - 1:
+                return None
+            # `blk` is the body of some statement; stop once that statement is a loop
+            owner = next((st for b2, j in path for st in [b2[j]] if any(getattr(st, f, None) is blk for f in ("body", "orelse"))), None)
+            if isinstance(owner, (ast.For, ast.While)):
+                break
+        else:
+            return None          # the yield is not inside a loop at all
+        return body, ys[0]
+
+    def rewrite(stmts, cls):
+        out = []
+        for st in stmts:
+            if isinstance(st, ast.ClassDef):
+                st.body = rewrite(st.body, st)
+                out.append(st)
+                continue
+            if isinstance(st, ast.FunctionDef):
+                st.body = rewrite(st.body, cls)
+                out.append(st)
+                continue
+            for fld in ("body", "orelse", "finalbody"):
+                blk = getattr(st, fld, None)
+                if isinstance(blk, list):
+                    setattr(st, fld, rewrite(blk, cls))
+            if isinstance(st, ast.Try):
+                for h in st.handlers:
+                    h.body = rewrite(h.body, cls)
+            if isinstance(st, ast.For) and not st.orelse and isinstance(st.iter, ast.Call):
+                f = st.iter.func
+                gen, is_method = None, False
+                if isinstance(f, ast.Attribute) and isinstance(f.value, ast.Name) and f.value.id == "self" and cls is not None:
+                    gen = next((d for d in cls.body if isinstance(d, ast.FunctionDef) and d.name == f.attr), None)
+                    is_method = True
+                elif isinstance(f, ast.Name) and f.id in mod_funcs:
+                    gen = mod_funcs[f.id]
+                own_break = False
+                stack = list(st.body)
+                while stack:
+                    b = stack.pop()
+                    if isinstance(b, ast.Break):
+                        own_break = True
+                    if isinstance(b, (ast.For, ast.While, ast.FunctionDef, ast.ClassDef)):
+                        continue
+                    stack.extend(ast.iter_child_nodes(b))
+                u = usable(gen) if gen is not None and yields(gen) else None
+                binding = _bind(gen, st.iter, is_method) if u is not None else None
+                if u is not None and binding is not None and not own_break and not any(k_.startswith("*") for k_ in binding) \
+                        and all(isinstance(a, (ast.Name, ast.Constant)) or (isinstance(a, ast.Attribute) and isinstance(a.value, ast.Name)) for a in binding.values()):
+                    gbody, y = u
+                    k = next(_counter)
+                    stored = {n.id for b in gbody for n in ast.walk(b) if isinstance(n, ast.Name) and isinstance(n.ctx, (ast.Store, ast.Del))}
+                    if not (stored & set(binding)):
+                        rename = {n: "%s__gen%d" % (n, k) for n in stored}
+                        new_body = [_Subst(dict(binding), rename).visit(copy.deepcopy(b)) for b in gbody]
+                        # the yield is found again in the copy by position in a parallel walk
+                        tgt = None
+                        for a, b in zip((x for g0 in gbody for x in ast.walk(g0)), (x for g1 in new_body for x in ast.walk(g1))):
+                            if a is y:
+                                tgt = b
+                                break
+
+                        def splice(stmts2):
+                            res = []
+                            for s2 in stmts2:
+                                if isinstance(s2, ast.Expr) and s2.value is tgt:
+                                    res.append(ast.copy_location(ast.Assign(targets=[copy.deepcopy(st.target)], value=tgt.value), st))
+                                    res.extend(st.body)
+                                    continue
+                                for fld in ("body", "orelse"):
+                                    blk = getattr(s2, fld, None)
+                                    if isinstance(blk, list):
+                                        setattr(s2, fld, splice(blk))
+                                res.append(s2)
+                            return res
+                        if tgt is not None:
+                            new_body = splice(new_body)
+                            for b in new_body:
+                                ast.fix_missing_locations(ast.copy_location(b, st) if not hasattr(b, "lineno") else b)
+                            out.extend(new_body)
+                            count[0] += 1
+                            continue
+            out.append(st)
+        return out
+    tree.body = rewrite(tree.body, None)
+    if count[0]:
+        ast.fix_missing_locations(tree)
+    return count[0]
+
+
+def _sink_tail_into_handlers(tree):
+    """`try: ...; return A  except E: H` followed by TAIL (reachable only by falling out of a handler, since the body always returns):
+    TAIL moves to the end of every handler that can fall through, so that the function ends in a try statement whose every way out
+    is spelled inside it.  An exception raised by TAIL was outside the try before and is outside it now (handler bodies are not
+    protected by their own try).  Python-level functions only."""
+    n = [0]
+
+    def block(stmts):
+        stmts = list(stmts)
+        for i, st in enumerate(stmts):
+            if isinstance(st, (ast.FunctionDef, ast.AsyncFunctionDef, ast.ClassDef)):
+                continue
+            for fld in ("body", "orelse", "finalbody"):
+                blk = getattr(st, fld, None)
+                if isinstance(blk, list):
+                    setattr(st, fld, block(blk))
+            if isinstance(st, ast.Try):
+                for h in st.handlers:
+                    h.body = block(h.body)
+                tail = stmts[i + 1:]
+                if tail and not st.finalbody and not st.orelse and st.handlers and _always_returns(st.body) \
+                        and not all(_always_returns(h.body) for h in st.handlers) \
+                        and not any(isinstance(x, (ast.FunctionDef, ast.ClassDef, ast.Lambda)) for t_ in tail for x in ast.walk(t_)):
+                    for h in st.handlers:
+                        if not _always_returns(h.body):
+                            h.body = [b for b in h.body if not isinstance(b, ast.Pass)] + [copy.deepcopy(t_) for t_ in tail]
+                    n[0] += 1
+                    return stmts[:i + 1]
+        return stmts
+    for fn in ast.walk(tree):
+        if isinstance(fn, ast.FunctionDef) and not _is_njit(fn):
+            fn.body = block(fn.body)
+    if n[0]:
+        ast.fix_missing_locations(tree)
+    return n[0]
+
+
 def _desugar_walrus_whiles(tree):
     """`while (x := E) <cmp> K: BODY`  ->  `while True: x = E; if not (x <cmp> K): break; BODY` -- the assignment expression is the
     first thing the test evaluates (the test itself, or the left operand of its one comparison), so every trip, including the one
@@ -3464,6 +3830,8 @@ def _desugar_walrus_whiles(tree):
 def normalize(tree):
     _desugar_walrus_whiles(tree)
     _priming_read_loops(tree)
+    _inline_generators(tree)
+    _sink_tail_into_handlers(tree)
     for fn_ in ast.walk(tree):
         if isinstance(fn_, ast.FunctionDef):
             _fold_flag_chains(fn_)
@@ -3485,6 +3853,9 @@ def normalize(tree):
         if isinstance(fn_, ast.FunctionDef):
             _merge_dict_item_stores(fn_.body)
     _FoldDisplays().visit(tree)
+    for fn_ in ast.walk(tree):
+        if isinstance(fn_, ast.FunctionDef):
+            _merge_dict_item_stores(fn_.body)       # `xs = [f(i) for i in range(3)]; xs.append(y)` once the comprehension is a display
     # `x = helper(...) if c else None` -> if/else before inlining, so that the helper call is a statement of its own arm
     def _pre_split(stmts):
         out = []
@@ -3526,11 +3897,14 @@ def normalize(tree):
     ast.fix_missing_locations(tree)
     tree._inlined_helpers = set(inl.inlined_names)
     consts = _module_const_tuples(tree)
+    _MODULE_ROW_TABLES.clear()
+    _MODULE_ROW_TABLES.update(_module_row_tables(tree))
     for node in ast.walk(tree):
         if isinstance(node, ast.FunctionDef):
             _fuse_row_views(node)
         if isinstance(node, ast.FunctionDef) and _is_njit(node):
             _inline_local_consts(node)
+            _fork_minmax_feeding_loop_bounds(node)
             _sink_store_into_arms(node)
             _split_bool_casts(node)
             _trip_counter_loops(node)
@@ -3540,6 +3914,7 @@ def normalize(tree):
             node.body = _split_simple_statements(node.body)       # statement forms only; kernels are otherwise read by the walker
         if isinstance(node, ast.FunctionDef) and not _is_njit(node):
             node.body = _split_simple_statements(node.body)
+            _hoist_fresh_containers_in_tables(node)
             _drop_bool_flags(node)
             _unswitch_loops(node)
             _fuse_loop_unpack(node)
@@ -3946,6 +4321,25 @@ def positionalise_python_calls(trees):
             c.args = list(c.args) + [k.value for k in moved]
             c.keywords = [k for k in c.keywords if k not in moved]
 
+    def trim_defaults(c, fn, drop_first):
+        """`self.add(key, 1)` where 1 is the literal default of that parameter is `self.add(key)`: a trailing positional argument that
+        is a constant equal to the callee's constant default says nothing.  (Only where the callee is this class's own method, found
+        through the hierarchy; a subclass overriding it with another default is not considered -- the package has none.)"""
+        if any(isinstance(a, ast.Starred) for a in c.args) or c.keywords or fn.args.vararg is not None or fn.args.kwarg is not None:
+            return
+        ps = list(fn.args.posonlyargs) + list(fn.args.args)
+        if drop_first and ps:
+            ps = ps[1:]
+        defaults = dict(zip([p.arg for p in ps][len(ps) - len(fn.args.defaults):], fn.args.defaults)) if fn.args.defaults else {}
+        names = [p.arg for p in ps]
+        while c.args and len(c.args) <= len(names):
+            pname = names[len(c.args) - 1]
+            d, a = defaults.get(pname), c.args[-1]
+            if isinstance(d, ast.Constant) and isinstance(a, ast.Constant) and type(d.value) is type(a.value) and d.value == a.value:
+                c.args = list(c.args[:-1])
+            else:
+                break
+
     for short, tree in trees.items():
         imports = _imports_of(tree)
 
@@ -3953,7 +4347,15 @@ def positionalise_python_calls(trees):
             for ch in ast.iter_child_nodes(node):
                 visit(ch, node if isinstance(node, ast.ClassDef) else cls)
             c = node
-            if not (isinstance(c, ast.Call) and c.keywords):
+            if not isinstance(c, ast.Call):
+                return
+            if not c.keywords:
+                # no keywords to move: only the explicit-default trimming below applies, and only to `self.m(...)` / `cls.m(...)`
+                f = c.func
+                if isinstance(f, ast.Attribute) and isinstance(f.value, ast.Name) and f.value.id in ("self", "cls") and cls is not None:
+                    m = method_of((short, cls.name), f.attr)
+                    if m is not None:
+                        trim_defaults(c, m, not is_static(m))
                 return
             f = c.func
             if isinstance(f, ast.Name):
